@@ -711,7 +711,27 @@ func (e *SpecEnv) applySpecFunc(sf *SpecFunc, x *ast.CallExpr) *Val {
 	}
 	name := "spec_" + sf.Name
 	u.S.declareFun(name, sorts, rs)
-	return &Val{T: rt, S: app(name, args...), Math: rt == mathInt}
+	res := &Val{T: rt, S: app(name, args...), Math: rt == mathInt}
+	if rt != mathInt && rt != boolT {
+		// values of spec functions are well-formed values of their Go type
+		if f := u.rangeFormula(res.S, rt, 0); f != "true" {
+			if !strings.Contains(res.S, "q!") {
+				u.assertOnce(f)
+			} else {
+				var binders []string
+				for bv, so := range e.bound {
+					if containsIdent(f, bv) {
+						binders = append(binders, "("+bv+" "+so+")")
+					}
+				}
+				if len(binders) > 0 {
+					sortStrings(binders)
+					u.assertOnce(fmt.Sprintf("(forall (%s) (! %s :pattern (%s)))", strings.Join(binders, " "), f, res.S))
+				}
+			}
+		}
+	}
+	return res
 }
 
 func (e *SpecEnv) sortOfType(t types.Type) string {
